@@ -696,7 +696,7 @@ impl Prop for C03 {
                 v.push(k);
             }
         }
-        for k in ["api.sample_loop", "api.sample_n", "api.sample_matrix", "seeding.seed_clock", "seeding.seed_small", "seeding.seed_set", "config.fault_free", "config.fault_injecting", "config.reached_by_update", "config.off_grid", "fault.rng_zero", "fault.rng_max", "fault.rng_tiny", "fault.rng_half", "fault.rng_tail", "fault.rng_streak", "fault.rng_pair", "fault.rng_zig_edge", "config.default_ctor", "config.preceded_by_other_object", "config.two_live_objects", "config.after_rejected_bulk_request", "config.mvn_preceded_by_sibling", "config.fill_policy_active", "config.mvn_structured", "check.dkw", "check.tail_points", "check.bulk_advances_stream", "check.mvn_projection", "check.serial_independence", "dpc.Normal.1", "dpc.Normal.2", "dpc.Normal.3+", "dpc.Poisson.4+", "dpc.Binomial.4+", "dpc.Gamma.4+"] {
+        for k in ["api.sample_loop", "api.sample_n", "api.sample_matrix", "seeding.seed_clock", "seeding.seed_small", "seeding.seed_set", "config.fault_free", "config.fault_injecting", "config.reached_by_update", "config.off_grid", "fault.rng_zero", "fault.rng_max", "fault.rng_tiny", "fault.rng_half", "fault.rng_tail", "fault.rng_streak", "fault.rng_pair", "fault.rng_zig_edge", "config.default_ctor", "config.preceded_by_other_object", "config.two_live_objects", "config.after_rejected_bulk_request", "config.mvn_preceded_by_sibling", "config.fill_policy_active", "config.mvn_structured", "check.dkw", "check.tail_points", "check.bulk_advances_stream", "check.mvn_projection", "check.mvn_second_moments", "check.serial_independence", "dpc.Normal.1", "dpc.Normal.2", "dpc.Normal.3+", "dpc.Poisson.4+", "dpc.Binomial.4+", "dpc.Gamma.4+"] {
             v.push(k.to_string());
         }
         v
@@ -1100,6 +1100,36 @@ fn exec_mvn(case: &Case, p: &[f64], st: &mut Stats, h: &mut H64, faulty: bool) -
                 v -= l[i * d + k] * z[s * d + k];
             }
             z[s * d + i] = v / l[i * d + i];
+        }
+    }
+    // "the requested covariance": the whitened draws are i.i.d. N(0, I), so for each coordinate the sum
+    // of squares is chi-square with n degrees of freedom and for each pair (i, j), i < j, the sum of
+    // products is a sum of n independent products of standard normals. Laurent-Massart / Bernstein
+    // bounds at alpha = 1e-12 shared by all d (d + 1) / 2 statistics: far sharper than the band on a
+    // single coordinate's ECDF when n / d is small (high dimension)
+    {
+        st.inc("check.mvn_second_moments");
+        let nf = n as f64;
+        let x = ((d * (d + 1)) as f64 / 1e-12).ln();
+        let dev = 2.0 * (nf * x).sqrt() + 2.0 * x;
+        for i in 0..d {
+            let ss: f64 = (0..n).map(|s| z[s * d + i] * z[s * d + i]).sum();
+            if (ss - nf).abs() > dev {
+                return mk("dkw_band", "covariance_off", format!("MVN(dim {}), n = {}: whitened coordinate {} has mean square {:.5}; a unit variance gives 1 +- {:.5} (alpha 1e-12): the draws do not have the requested covariance", d, n, i, ss / nf, dev / nf));
+            }
+        }
+        if d <= 40 {
+            // products of two independent standard normals are sub-exponential: Bernstein with variance 1
+            // and scale 1 per term (|sum| <= sqrt(2 n x) * 1.5 + 3 x is comfortably above the exact bound)
+            let devp = 1.5 * (2.0 * nf * x).sqrt() + 3.0 * x;
+            for i in 0..d {
+                for j in (i + 1)..d {
+                    let sp: f64 = (0..n).map(|s| z[s * d + i] * z[s * d + j]).sum();
+                    if sp.abs() > devp {
+                        return mk("dkw_band", "covariance_off", format!("MVN(dim {}), n = {}: whitened coordinates {} and {} have mean product {:.5}; independence gives 0 +- {:.5} (alpha 1e-12): the draws do not have the requested covariance", d, n, i, j, sp / nf, devp / nf));
+                    }
+                }
+            }
         }
     }
     let eps = eps_dkw(n);
